@@ -519,3 +519,32 @@ func Harness_app_single_food_patterns() {
 		verifAssert("malformed-pattern-is-error", err != nil)
 	}
 }
+
+// Harness_app_cyclic_book: a cyclic recipe book (self reference, two-cycle, cycle below a
+// healthy recipe) under every --maxdepth in {-1, 0, 1, 2, default}: every command that resolves
+// the book terminates with an error or a report - it never recurses without bound.
+func Harness_app_cyclic_book() {
+	books := []string{
+		"a:\n  a: 1\n",
+		"a:\n  x: 1\n  b: 2\nb:\n  a: 1\n",
+		"top:\n  a: 1\na:\n  b: 1\nb:\n  c: 1\nc:\n  a: 2\n  x: 1\n",
+		"a:\n  x: 1\nb:\n  a: 2\n", // acyclic control
+	}
+	bi := verifChoose("book", len(books))
+	depths := []string{"", "-1", "0", "1", "2"}
+	di := verifChoose("maxdepth", len(depths))
+	verifLabel("maxdepth", depths[di])
+	cmds := [][]string{{"csv", "database-resolved"}, {"reg"}, {"bal"}, {"report", "element-total", "x"}}
+	cmd := cmds[verifChoose("command", len(cmds))]
+	args := []string{"--logfile=" + verifFile("log", "2021/01/01:\n  a: 1\n"), "--database=" + verifFile("db", books[bi])}
+	if depths[di] != "" {
+		args = append(args, "--maxdepth="+depths[di])
+	}
+	_, err := hApp(-1, append(args, cmd...)...)
+	verifCover("ran")
+	if bi < 3 {
+		verifAssert("cyclic-book-is-error", err != nil)
+	} else if depths[di] == "" {
+		verifAssert("acyclic-book-resolves-under-default-limit", err == nil)
+	}
+}
